@@ -303,13 +303,17 @@ def _edit(doc, path, value):
 
 
 def _certified_malformed(text):
-    try:
-        yaml.safe_load(text)
-    except yaml.YAMLError:
-        return True
-    except Exception:  # noqa: BLE001
-        return True
-    return False
+    """Malformed for every YAML loader at hand - the pure-Python one and, where present, libyaml's. A document
+    on which they disagree (a TAB inside a plain scalar: the specification allows it, libyaml loads it, the
+    pure-Python scanner rejects it) is not certified: calling it malformed would bind JASM to one loader."""
+    loaders = [yaml.SafeLoader] + ([yaml.CSafeLoader] if hasattr(yaml, "CSafeLoader") else [])
+    for loader in loaders:
+        try:
+            yaml.load(text, Loader=loader)  # noqa: S506 - safe loaders only
+        except Exception:  # noqa: BLE001
+            continue
+        return False
+    return True
 
 
 GROUPS = ("$and", "$or", "$not", "$and_any_order")
@@ -586,7 +590,8 @@ def doc_faults(rng, rule_doc, macro_files, rule_rel="rule.yaml", max_per_kind=6,
             add(f"macro_file_without_macros_key@{rel}", {"something": 1}, target=rel, klass="macro_file_shape")
             add(f"macro_file_empty@{rel}", raw="", target=rel, klass="macro_file_shape")
             add(f"macro_file_scalar@{rel}", raw="macros\n", target=rel, klass="macro_file_shape")
-            add(f"macro_file_malformed@{rel}", raw=gen.dump_yaml(md) + "}{ : [\n", target=rel, klass="malformed")
+            if _certified_malformed(gen.dump_yaml(md) + "}{ : [\n"):
+                add(f"macro_file_malformed@{rel}", raw=gen.dump_yaml(md) + "}{ : [\n", target=rel, klass="malformed")
             add(f"macro_file_macros_null@{rel}", {"macros": None}, target=rel, klass="macro_file_shape")
     return out
 
